@@ -110,6 +110,38 @@ struct Inner {
     max_files: Option<usize>,
 }
 
+/// Verification hook: a process-wide clock override consulted by
+/// `RollingFileAppender::now` and the builder (the clock is otherwise only
+/// injectable under `cfg(test)`).
+#[cfg(tokio_rs_tracing_verif)]
+#[doc(hidden)]
+pub mod verif_clock {
+    use std::sync::atomic::{AtomicBool, AtomicI64, Ordering};
+    use time::OffsetDateTime;
+
+    static ENABLED: AtomicBool = AtomicBool::new(false);
+    static SECS: AtomicI64 = AtomicI64::new(0);
+
+    /// Makes every appender read `secs` (seconds since the Unix epoch) as the current time.
+    pub fn set(secs: i64) {
+        SECS.store(secs, Ordering::SeqCst);
+        ENABLED.store(true, Ordering::SeqCst);
+    }
+
+    /// Returns to the system clock.
+    pub fn clear() {
+        ENABLED.store(false, Ordering::SeqCst);
+    }
+
+    pub(crate) fn now() -> Option<OffsetDateTime> {
+        if ENABLED.load(Ordering::SeqCst) {
+            OffsetDateTime::from_unix_timestamp(SECS.load(Ordering::SeqCst)).ok()
+        } else {
+            None
+        }
+    }
+}
+
 // === impl RollingFileAppender ===
 
 impl RollingFileAppender {
@@ -193,6 +225,8 @@ impl RollingFileAppender {
         } = builder;
         let directory = directory.as_ref().to_path_buf();
         let now = OffsetDateTime::now_utc();
+        #[cfg(tokio_rs_tracing_verif)]
+        let now = verif_clock::now().unwrap_or(now);
         let (state, writer) = Inner::new(
             now,
             rotation.clone(),
@@ -213,6 +247,11 @@ impl RollingFileAppender {
     fn now(&self) -> OffsetDateTime {
         #[cfg(test)]
         return (self.now)();
+
+        #[cfg(all(not(test), tokio_rs_tracing_verif))]
+        if let Some(now) = verif_clock::now() {
+            return now;
+        }
 
         #[cfg(not(test))]
         OffsetDateTime::now_utc()
